@@ -878,6 +878,16 @@ func (a *Analysis) ruleF4() {
 
 // ---------------------------------------------------------------- E1
 
+// isDescTable: g is a descriptor table whose uses T3 found to be of the recognised form.
+func (a *Analysis) isDescTable(g *ssa.Global) bool {
+	for _, dt := range a.descTables {
+		if dt.D == g && dt.checked && dt.problem == "" {
+			return true
+		}
+	}
+	return false
+}
+
 func isOnceArray(t types.Type) bool {
 	at, ok := t.Underlying().(*types.Array)
 	return ok && isOnce(at.Elem())
@@ -935,6 +945,12 @@ func (a *Analysis) ruleE1() {
 			// on what an earlier call left there without a rule noticing)
 			classes["pool"]++
 			r.OK("E1", key, pos, "", "sync.Pool used as a free list of %v: only Get/Put, content unknown on Get", a.G.PoolElem[g])
+		case a.isDescTable(g):
+			// a table of per-language descriptors (list, pointer to the map variable, Once): what
+			// T3 checked — written by its declaration only, the Once fields only receive Do, the
+			// map pointers only lead to the guarded construction and to reads after it
+			classes["descriptor-table"]++
+			r.OK("E1", key, pos, "", "descriptor table: written by its declaration only; its sync.Once fields are only the receivers of Do (T3)")
 		case isOnceArray(et):
 			// an array of guards: never assigned; every use of its address is &g[k] with a constant
 			// k, and that only as the receiver of Do
@@ -1084,8 +1100,8 @@ func (a *Analysis) ruleE1() {
 		total += v
 	}
 	// a map built during package initialisation has no guard variable to classify
-	r.Counts["E1.guard"] += a.initBuilt
-	r.Counts["E1.classified"] = total + a.initBuilt
+	r.Counts["E1.guard"] += a.initBuilt + a.descGuards
+	r.Counts["E1.classified"] = total + a.initBuilt + a.descGuards
 	// every guard serves exactly one T3 instance
 	for g, n := range guards {
 		_ = n
